@@ -301,6 +301,8 @@ CHECKS = {
                  {"name": "VerifC04Acks", "quick": {"maxbatch": 2, "actions": 0, "encryption": 1, "occ": 0}, "thorough": {"maxbatch": 3, "actions": 1, "encryption": 1, "occ": 0},
                   "replay": "interpreted", "max-paths": 3000000, "covers": ["done"],
                   "targets": ["partition).messageProcessingLoop", "partition).processPendingMessage"]},
+                 {"name": "VerifC17FlagTravels", "replay": "interpreted", "covers": ["done", "stream-says-yes", "stream-says-no", "server-default-yes", "pause-resume", "restored-from-snapshot", "second-stream"],
+                  "targets": ["Server).newPartition", "StreamsConfig).ApplyOverrides", "Server).Restore"]},
              ]},
         ],
     },
